@@ -452,6 +452,11 @@ def decode_schema(e: Any, dialect: str = "3.0") -> Any:
         for base, k in (("minimum", "exclMin"), ("maximum", "exclMax")):
             if e.get(k) and base in o:
                 del o[base]
+    if e.get("nullable") is False:      # the default spelled out (3.1 has no such keyword)
+        if dialect == "3.0":
+            o["nullable"] = False
+        elif dialect == "2.0":
+            o["x-nullable"] = False
     if e.get("nullable"):
         if dialect == "3.0":
             o["nullable"] = True
